@@ -13,7 +13,10 @@ EXTENDS Deadliner, TraceCommon
 tvars == <<vars, tr, l>>
 TraceInit == Init /\ TrInit
 TReset == IsEvent("Reset") /\ UNCHANGED vars
-TAdd == /\ IsEvent("Add") /\ ~TimerDue
+\* "race": the registration was handed in while the run goroutine was busy and the clock moved on (the Advance event
+\* before it): elapsed timer and input were ready together, so the due fires happen before OR after it (no urgency)
+IsRace == "race" \in DOMAIN Ev /\ Ev.race
+TAdd == /\ IsEvent("Add") /\ (~TimerDue \/ IsRace)
         /\ Add(Ev.d)
         /\ status'[Len(status')][2] = Ev.res
 TAdvance == IsEvent("Advance") /\ ~TimerDue /\ Advance(Ev.by)
